@@ -281,6 +281,7 @@ func (c *Controller) notifySubscribers(r record.Record) {
 
 	for _, sub := range c.subscriptions {
 		if r.Meta().CheckPermission(sub.local, sub.internal) && sub.q.Matches(r) {
+			verifPoint("notify.send")
 			select {
 			case sub.Feed <- r:
 			default:
